@@ -30,6 +30,7 @@ import (
 )
 
 const (
+	c15NDefs  = 4 // distinguishable definitions per route name
 	c15Hot    = 2
 	c15Window = 10 * time.Second
 )
@@ -59,7 +60,10 @@ func c15V(name string) string {
 func c15Source(name string, ver int) string {
 	P, V := c15P(name), c15V(name)
 	var t string
-	switch ver % 3 {
+	switch ver % c15NDefs {
+	case 3:
+		// the same subexpression with its operands in both orders: + concatenates strings, so P + "k" and "k" + P differ
+		t = fmt.Sprintf("@ GET /%s/:P {\n  $ V = P + \"k%d\"\n  $ b = \"k%d\" + P\n  $ c = P + \"k%d\"\n  > {n: \"%s\", v: %d, a: V, b: b, c: c, q: P}\n}\n", name, ver, ver, ver, name, ver)
 	case 0:
 		t = fmt.Sprintf("@ GET /%s/:P {\n  $ V = %d\n  if P > 1 {\n    $ V = V + 10\n  }\n  > {n: \"%s\", v: %d, a: V, q: P}\n}\n", name, 100+ver, name, ver)
 	case 1:
@@ -74,7 +78,7 @@ var c15RouteCache = map[string]*ast.Route{}
 var c15RefCache = map[string][]string{}
 
 func c15Route(name string, ver int) *ast.Route {
-	key := fmt.Sprint(name, ver%3)
+	key := fmt.Sprint(name, ver%c15NDefs)
 	if r, ok := c15RouteCache[key]; ok {
 		return r
 	}
@@ -145,7 +149,7 @@ func c15PtrExpr(e ast.Expr) ast.Expr {
 	}
 }
 
-var c15Inputs = []int64{0, 1, 2, 5}
+var c15Inputs = []int64{0, 1, 2, 5, -1} // -1 stands for the string input "ab"
 
 // c15Behaviour executes bytecode for the four inputs and renders the outcomes.
 func c15Behaviour(name string, bc []byte) []string {
@@ -153,7 +157,11 @@ func c15Behaviour(name string, bc []byte) []string {
 	for i, q := range c15Inputs {
 		m := vm.NewVM()
 		m.SetMaxSteps(100000)
-		m.SetLocal(c15P(name), vm.IntValue{Val: q})
+		if q == -1 {
+			m.SetLocal(c15P(name), vm.StringValue{Val: "ab"})
+		} else {
+			m.SetLocal(c15P(name), vm.IntValue{Val: q})
+		}
 		func() {
 			defer func() {
 				if p := recover(); p != nil {
@@ -174,7 +182,7 @@ func c15Behaviour(name string, bc []byte) []string {
 
 // reference behaviour: fresh OptNone compilation of the definition
 func c15Ref(name string, ver int) []string {
-	key := fmt.Sprint(name, ver%3)
+	key := fmt.Sprint(name, ver%c15NDefs)
 	if r, ok := c15RefCache[key]; ok {
 		return r
 	}
@@ -243,6 +251,9 @@ func c15Alphabet(thorough bool) []c15Event {
 		{Op: "RecordDeoptimization", Name: "r"},
 		{Op: "Redefine+InvalidateCache", Name: "r"},
 		{Op: "Redefine+ClearCache", Name: "r"},
+		{Op: "Redefine(no invalidation)", Name: "r"},
+		{Op: "StragglerCompile", Name: "r"},
+		{Op: "RecordDeoptimization*3", Name: "r"},
 		{Op: "advance"},
 		{Op: "GetUnit", Name: "r"},
 		// second route: interference through shared caches
@@ -264,6 +275,7 @@ type c15Sys struct {
 	retired map[string]map[*byte]string
 	// every slice handed out with a private copy of what it held then: code a request is executing must never change
 	issued []c15Issued
+	passed map[string]map[int]bool // per name: definition versions passed to the JIT since the last invalidation
 	j      *JITCompiler
 	ver    map[string]int // definition handed to new calls
 	done   map[string]int // definitions whose invalidation has returned
@@ -292,7 +304,8 @@ func (s *c15Sys) checkIssued(after string) string {
 
 func newC15Sys() *c15Sys {
 	return &c15Sys{j: NewJITCompilerWithConfig(c15Hot, c15Window), ver: map[string]int{"r": 0, "s": 0}, done: map[string]int{"r": 0, "s": 0},
-		handed: map[string]map[*byte]bool{"r": {}, "s": {}}, retired: map[string]map[*byte]string{"r": {}, "s": {}}}
+		handed: map[string]map[*byte]bool{"r": {}, "s": {}}, retired: map[string]map[*byte]string{"r": {}, "s": {}},
+		passed: map[string]map[int]bool{"r": {}, "s": {}}}
 }
 
 // handOut records a served slice and reports whether it had been retired.
@@ -344,6 +357,19 @@ func (s *c15Sys) judge(what, name string, bc []byte) string {
 		}
 	}
 	got := c15BehaviourCached(name, bc)
+	if strings.Contains(what, "GetUnit") || strings.Contains(what, "cached unit") {
+		// GetUnit takes no definition: the cached unit is the code of SOME definition that was passed to the JIT for
+		// this name since the last invalidation (a straggler may have been the last one)
+		for v := range s.passed[name] {
+			w, same := c15Ref(name, v), true
+			for i := range w {
+				same = same && got[i] == w[i]
+			}
+			if same {
+				return ""
+			}
+		}
+	}
 	want := c15Ref(name, s.ver[name])
 	for i := range want {
 		if got[i] != want[i] {
@@ -364,7 +390,10 @@ func (s *c15Sys) apply(e c15Event, advance func(time.Duration)) string {
 
 func (s *c15Sys) apply1(e c15Event, advance func(time.Duration)) string {
 	j := s.j
-	route := func() *ast.Route { return c15Route(e.Name, s.ver[e.Name]) }
+	route := func() *ast.Route {
+		s.passed[e.Name][s.ver[e.Name]] = true
+		return c15Route(e.Name, s.ver[e.Name])
+	}
 	switch e.Op {
 	case "CompileRoute":
 		bc, err := j.CompileRoute(e.Name, route())
@@ -392,18 +421,48 @@ func (s *c15Sys) apply1(e c15Event, advance func(time.Duration)) string {
 	case "RecordDeoptimization":
 		j.RecordDeoptimization(e.Name, "type mismatch", map[string]string{"int": "string"})
 		s.retireSpecs(e.Name, "RecordDeoptimization")
+	case "RecordDeoptimization*3":
+		for k := 0; k < 3; k++ {
+			j.RecordDeoptimization(e.Name, "type mismatch", map[string]string{"int": "string"})
+		}
+		s.retireSpecs(e.Name, "RecordDeoptimization")
+	case "Redefine(no invalidation)":
+		// the embedder starts passing a new definition without telling the JIT: what a caller is handed must still
+		// behave like the definition that caller passed
+		s.ver[e.Name]++
+	case "StragglerCompile":
+		// a request that started before the last redefinition still holds the previous definition: it is handed code
+		// of THAT definition, and must not make later callers with the current definition receive it
+		if s.ver[e.Name] == 0 {
+			return ""
+		}
+		old := s.ver[e.Name] - 1
+		s.passed[e.Name][old] = true
+		bc, err := j.CompileRoute(e.Name, c15Route(e.Name, old))
+		if err != nil {
+			return "compile-error: CompileRoute (previous definition): " + err.Error()
+		}
+		s.issue("the bytecode returned to a caller holding the previous definition", e.Name, bc)
+		got, want := c15BehaviourCached(e.Name, bc), c15Ref(e.Name, old)
+		for i := range want {
+			if got[i] != want[i] {
+				return fmt.Sprintf("stale-or-wrong-code: CompileRoute called with the previous definition v%d of route %s returned code that behaves like %s for input #%d, that definition gives %s", old, e.Name, got[i], i, want[i])
+			}
+		}
 	case "Redefine+InvalidateCache":
 		// Swap the definition, then invalidate.  Calls that start before the
 		// invalidation has returned may still be served the old code; calls
 		// that start afterwards (s.done) must never be.
 		s.ver[e.Name]++
 		j.InvalidateCache(e.Name)
+		s.passed[e.Name] = map[int]bool{}
 		s.done[e.Name]++
 		s.retire(e.Name, "InvalidateCache")
 	case "Redefine+ClearCache":
 		// ClearCache drops every unit; the other route keeps its definition
 		s.ver[e.Name]++
 		j.ClearCache()
+		s.passed = map[string]map[int]bool{"r": {}, "s": {}}
 		s.done[e.Name]++
 		for _, n := range c15Names {
 			s.retire(n, "ClearCache")
@@ -424,7 +483,7 @@ func (s *c15Sys) canon() string {
 	j := s.j
 	now := vrt.Now()
 	for _, n := range c15Names {
-		fmt.Fprintf(&b, "%s:v%d;", n, s.ver[n]%3)
+		fmt.Fprintf(&b, "%s:v%d;", n, s.ver[n]%c15NDefs)
 		if u, ok := j.units[n]; ok {
 			old := now.Sub(u.CompiledAt) > c15Window
 			fmt.Fprintf(&b, "unit(t%d,%x,old=%v);", u.Tier, sha1.Sum(u.Bytecode), old)
